@@ -78,6 +78,7 @@ FLAVORS = {
     "san": (["clang", "-O1", "-g", "-fsanitize=address,undefined", "-fno-sanitize-recover=undefined",
              "-fsanitize-recover=pointer-overflow", "-fno-omit-frame-pointer"], ["-fsanitize=address,undefined"]),
     "cov": (["clang", "-O0", "-g0"], []),
+    "tsan": (["clang", "-O1", "-g", "-fsanitize=thread", "-fno-omit-frame-pointer"], ["-fsanitize=thread", "-lpthread"]),
 }
 CDEFS = ["-std=gnu99", "-D_GNU_SOURCE", "-D" + GUARD, "-DHAVE_CONFIG_H", "-w"]
 
